@@ -149,3 +149,21 @@ def parallel_map(fn, jobs: List[Any], workers: Optional[int] = None) -> List[Any
                 if isinstance(d, dict):
                     d.setdefault("model", idx)
     return results
+
+
+def valeq_instances(oc, rule: str, what: str, kinds=("branch", "valeq-lookup")) -> List[Dict[str, Any]]:
+    """Participants are positions, not values: a branch (or a list lookup) inside an operation that is decided by the value
+    equality (`==`, `!=`, `in`, `.index`, `.remove`) of two rating / team objects treats two distinct participants with equal
+    ratings as one. One VIOLATED instance per such construct, none when there is no such construct."""
+    out: List[Dict[str, Any]] = []
+    seen = set()
+    for ev in oc.I.events:
+        if ev.kind in kinds and ((ev.kind == "branch" and "VALEQ" in ev.data.get("prov", ())) or ev.kind == "valeq-lookup"):
+            if ev.node is None or id(ev.node) in seen:
+                continue
+            seen.add(id(ev.node))
+            m, fn, ln = where(ev)
+            how = "branch on" if ev.kind == "branch" else f"list.{ev.data.get('how')} by"
+            out.append(dict(rule=rule, verdict="VIOLATED", module=m, function=fn, construct=norm_text(ev.node, 100), line=ln,
+                            message=f"{how} the value equality of rating/team objects: two distinct participants with equal ratings are treated as one and the same, {what}", detail={}))
+    return out
